@@ -170,6 +170,7 @@ def event_kind(desc_case_line):
 
 
 ABS_PROPS = {"C01", "C02", "C03", "C04", "C05", "C06", "C09"}
+CFG_PROPS = {"C01", "C02", "C03", "C08", "C11"}   # membership-changing histories against Abs/CfgRaft.v
 ABS_CODES = {1: "no projection listed for the event's node", 2: "observed projections differ from the abstract state after the event",
              10: "election started by node 0", 11: "election started by a node that is leader",
              20: "vote granted to candidate 0", 21: "vote granted for an election nobody started", 22: "vote granted although the voter "
@@ -186,17 +187,33 @@ ABS_CODES = {1: "no projection listed for the event's node", 2: "observed projec
              104: "snapshot contains entries not acknowledged by a majority (not committed)", 105: "commit index after installation outside [old commit, snapshot index]"}
 
 
-def run_abs(pid, tier, seed, wd):
-    """Cluster-level tie: observed histories of real nodes must be runs of the abstract protocol (coq/Abs/Exec.v, proved sound)."""
+CFG_CODES = {1: "the observed term differs from the abstract node's", 2: "the observed log differs from the abstract node's",
+             3: "the observed commit index is ahead of the abstract node's", 4: "a node observed as leader/candidate is not one in the abstract state"}
+
+
+def cfg_code(why):
+    if why >= 1000:
+        return "action #%d of the event is not enabled in the abstract protocol (guard of Abs/CfgRaft.v fails)" % (why - 1000)
+    return "%s (observation #%d of the event)" % (CFG_CODES.get(why % 10, "code %d" % why), why // 10)
+
+
+def run_abs(pid, tier, seed, wd, drv="abs"):
+    """Cluster-level tie: observed histories of real nodes must be runs of the abstract protocol (coq/Abs/Exec.v for static voters with
+    crashes and snapshots; coq/Abs/CfgExec.v for membership-changing runs), both proved sound."""
     import re
     import shutil
-    nseq, nsteps = (16, 700) if tier == "quick" else (240, 1500)
-    rc, out = vlib.vh(["raft", "abs", seed, nseq, nsteps, wd], timeout=3000)
+    if drv == "abs":
+        nseq, nsteps = (16, 700) if tier == "quick" else (240, 1500)
+    else:
+        nseq, nsteps = (14, 500) if tier == "quick" else (200, 900)
+    codes = (lambda w: ABS_CODES.get(w, "code %d" % w)) if drv == "abs" else cfg_code
+    checker = "Abs/Exec.v" if drv == "abs" else "Abs/CfgExec.v"
+    rc, out = vlib.vh(["raft", drv, seed, nseq, nsteps, wd], timeout=3000)
     if rc != 0:
         return [{"signature": "harness-died abs", "detail": died(out), "found": True,
-                 "replay": {"property": pid, "kind": "process died while driving the real code", "driver": "abs", "output_tail": out[-3000:]}}], None, {}
-    meta = json.load(open(os.path.join(wd, "abs_meta.json")))
-    files = sorted(glob.glob(os.path.join(wd, "cases_abs_*.v")))
+                 "replay": {"property": pid, "kind": "process died while driving the real code", "driver": drv, "output_tail": out[-3000:]}}], None, {}
+    meta = json.load(open(os.path.join(wd, drv + "_meta.json")))
+    files = sorted(glob.glob(os.path.join(wd, "cases_%s_*.v" % drv)))
     viols, broken, accepted = [], None, 0
 
     def ev(f):
@@ -215,25 +232,25 @@ def run_abs(pid, tier, seed, wd):
                 accepted += 1
                 continue
             idx = k1 - 1
-            src = os.path.join(wd, "abs_run_%d.txt" % run_id)
+            src = os.path.join(wd, "%s_run_%d.txt" % (drv, run_id))
             evs = open(src).read().split("\n") if os.path.exists(src) else []
-            keep = os.path.join(vlib.ROOT, "replays", "%s_abs_run_%d_seed%s.txt" % (pid, run_id, seed))
+            keep = os.path.join(vlib.ROOT, "replays", "%s_%s_run_%d_seed%s.txt" % (pid, drv, run_id, seed))
             os.makedirs(os.path.dirname(keep), exist_ok=True)
             if os.path.exists(src):
                 shutil.copyfile(src, keep)
-            viols.append({"signature": "abs-refinement %s" % ABS_CODES.get(why, "code %d" % why), "found": True,
+            viols.append({"signature": "%s-refinement %s" % (drv, codes(why).split(" (")[0]), "found": True,
                           "detail": "%s: event #%d is not a step of the abstract protocol: %s; event: %s" % (
-                              meta["desc"].get(str(run_id)), idx, ABS_CODES.get(why, why), evs[idx][:600] if idx < len(evs) else "?"),
-                          "replay": {"property": pid, "kind": "observed history of real nodes rejected by Abs/Exec.v", "run": run_id, "seed": seed,
-                                     "event_index": idx, "reason_code": why, "reason": ABS_CODES.get(why, ""), "event": evs[idx] if idx < len(evs) else None,
+                              meta["desc"].get(str(run_id)), idx, codes(why), evs[idx][:600] if idx < len(evs) else "?"),
+                          "replay": {"property": pid, "kind": "observed history of real nodes rejected by " + checker, "run": run_id, "seed": seed,
+                                     "event_index": idx, "reason_code": why, "reason": codes(why), "event": evs[idx] if idx < len(evs) else None,
                                      "history_file": keep, "case_file": f,
-                                     "how": "vh raft abs %s %s %s <dir>; coqc evaluates Exec.run V history" % (seed, nseq, nsteps)}})
+                                     "how": "vh raft %s %s %s %s <dir>; coqc evaluates the history checker on it" % (drv, seed, nseq, nsteps)}})
     if broken is None and accepted + len(viols) != len(meta["desc"]):
         broken = "abstract tie: %d histories written, %d results read back" % (len(meta["desc"]), accepted + len(viols))
     for e in meta.get("errors") or []:
         viols.append({"signature": "driver-error " + e[:40], "detail": e, "found": True, "replay": {"property": pid, "kind": "driver error", "what": e}})
-    cov = {"abs_histories": len(meta["desc"]), "abs_histories_accepted": accepted, "abs_events": meta["events"], "abs_distribution": meta["dist"],
-           "abs_samples": meta["samples"][:2]}
+    cov = {drv + "_histories": len(meta["desc"]), drv + "_histories_accepted": accepted, drv + "_events": meta["events"], drv + "_distribution": meta["dist"],
+           drv + "_samples": (meta["samples"] or [])[:2]}
     return viols, broken, cov
 
 
@@ -293,6 +310,11 @@ def run_node(pid, tier, seed):
         av, ab, abs_cov = run_abs(pid, tier, seed, vlib.workdir(pid + "_abs"))
         viols.extend(av)
         broken = broken or ab
+    cfg_cov = {}
+    if pid in CFG_PROPS:
+        cv, cb, cfg_cov = run_abs(pid, tier, seed, vlib.workdir(pid + "_cfg"), drv="cfg")
+        viols.extend(cv)
+        broken = broken or cb
     # dedupe by signature (keep first 3 of each)
     seen, out = {}, []
     for v in viols:
@@ -333,6 +355,11 @@ def run_node(pid, tier, seed):
         cov["rule"] += ("; abstract tie: %d whole-cluster histories (%d events) of the real nodes were checked by "
                         "Abs/Exec.v to be runs of the abstract protocol the safety theorems are proved about (membership is static in these histories; snapshots, "
                         "compaction and snapshot installation are included)" % (abs_cov["abs_histories"], abs_cov["abs_events"]))
+    cov.update(cfg_cov)
+    if cfg_cov:
+        cov["rule"] += ("; abstract tie under membership changes: %d whole-cluster histories (%d events; no crashes, no snapshots) of the real nodes "
+                        "were checked by Abs/CfgExec.v to be runs of the abstract protocol with membership changes in the log (Abs/CfgRaft.v) that the "
+                        "theorems of Props/C08_abs.v are proved about" % (cfg_cov["cfg_histories"], cfg_cov["cfg_events"]))
     return {"violations": out, "coverage": cov, "tie_broken": broken}
 
 
@@ -354,8 +381,8 @@ reg_node("C01", "Theorems: election safety for every reachable state of the abst
          "vote per (term, voter), every elected node has a majority of recorded votes; two majorities meet. Tie: the node model's vote handlers "
          "(on_vote_request, start_election, on_vote_result, restart) are compared event by event with the real handlers; monitor: two nodes "
          "leader in one term on the simulated cluster.",
-         ["static voter set in the abstract theorem; under membership changes safety additionally needs overlapping majorities (C08)"],
-         extra_props=["AbsTie.v", "C20.v"])
+         ["Abs/Votes.v and Abs/Raft.v have a static voter set; election safety under membership changes is cfg_election_safety (Props/C08_abs.v, model Abs/CfgRaft.v without crash/snapshot steps)"],
+         extra_props=["AbsTie.v", "C20.v", "C08_abs.v", "CfgTie.v"])
 
 
 # ------------------------------------------------------------------ C14
@@ -454,7 +481,7 @@ reg_node("C08", "Theorems: every configuration derived by one action is adjacent
          "reachable state of the protocol with single-voter membership changes in the log; the variant without the own-term-commit guard is refuted. "
          "The abstract reconfiguration protocol has no crash/snapshot steps and is linked to the code by the node-level guard theorems plus the "
          "per-event correspondence (no history checker for membership-changing runs).",
-         ["NoDup node ids; requests carry consecutive entries"], extra_props=["C08_abs.v"])
+         ["NoDup node ids; requests carry consecutive entries"], extra_props=["C08_abs.v", "CfgTie.v"])
 
 
 # ------------------------------------------------------------------ C10
@@ -516,11 +543,11 @@ reg_node("C02", "Theorems: (abstract protocol, Props/C02.v when present) leader 
          "interleaving; (node level, Props/C02_rules.v) a vote is newly cast only for an at-least-as-up-to-date log, a follower truncates only "
          "from the first conflicting index, holds every request entry as sent, the follower commit index moves only to covered current-term "
          "entries, a leader's log is append-only. Monitors: committed entries never differ between nodes, every leader holds all committed entries.",
-         ["static voter set in the abstract theorems; voter-set changes need the overlap hypothesis (C08)"], extra_props=["C02_rules.v", "AbsTie.v"])
+         ["Abs/Raft.v (crash, flush, snapshots) has a static voter set; Abs/CfgRaft.v (membership changes in the log, Props/C08_abs.v) has no crash or snapshot step"], extra_props=["C02_rules.v", "AbsTie.v", "C08_abs.v", "CfgTie.v"])
 reg_node("C03", "Theorems: (abstract protocol, Props/C03.v when present) committed prefixes of any two nodes are prefix-related; (node level) the "
          "state machine is fed the entries after its position up to the commit index contiguously, in order, once (apply_is_contiguous, "
          "queue_applied_in_order). Monitor: state-machine command lists of all nodes are pairwise prefix-related after every event.",
-         ["deterministic FSM"], extra_props=["C02_rules.v", "C09.v", "AbsTie.v"])
+         ["deterministic FSM"], extra_props=["C02_rules.v", "C09.v", "AbsTie.v", "C08_abs.v", "CfgTie.v"])
 reg_node("C04", "Theorems: (abstract protocol, Props/C04.v) log matching for any two logs of any reachable state and leader append-only; (node level) "
          "requests are faithful log slices with the right prevLogTerm, followers hold request entries exactly as sent, leaders never rewrite "
          "their log. Monitor: (index, term) -> (type, payload, predecessor term) stays a function over every log ever dumped.",
